@@ -223,15 +223,11 @@ theorem out_keeps_format (o : Fmt) (r : Computed) (shapeOk : Bool) (dflt : List 
     | .error e => e = Err.value ∧ (shapeOk = false ∨ r = .dense)
     | .ok s => shapeOk = true ∧ s.cls = o.cls ∧ s.wellFormed = true ∧
         ∃ f, r = .sparse f ∧ s.holds = .sparse (if f.cls = o.cls then f else o) := by
-  have hs : Gen.ufuncOutSteps = [.unpack, .shapeCheck, .refuseDense, .convertFormat true, .shallowCopy, .returnOut] := rfl
-  rw [hs]
-  cases shapeOk
-  · simp [outStore, outRun, outStep]
-  · cases r with
-    | dense => simp [outStore, outRun, outStep]
-    | sparse f =>
-      obtain ⟨h1, h2, h3, h4, h5, h6⟩ := cls_distinct
-      cases o <;> cases f <;> simp [outStore, outRun, outStep, Fmt.cls, Stored.wellFormed, h1, h2, h3, h4, h5, h6]
+  -- the generated step list is unfolded and RUN by `simp` in every case of (shapes equal?, what was computed, format of `out`): no
+  -- literal list is written here, so any list of steps for which the statement holds is handled by the same script
+  obtain ⟨h1, h2, h3, h4, h5, h6⟩ := cls_distinct
+  cases shapeOk <;> rcases r with _ | f <;> cases o <;> (try cases f) <;>
+    simp [Gen.ufuncOutSteps, outStore, outRun, outStep, Fmt.cls, Stored.wellFormed, h1, h2, h3, h4, h5, h6]
 
 /-- **inplace_every_pair.** `a op= b` / `np.<ufunc>(a, b, out=(a,))` for every ORDERED PAIR of formats (each of COO, GCXS with any
 compressed axes, DOK): the element-wise machinery returns the format `elemwiseFormat [a, b]`; whatever that is, the target
